@@ -70,6 +70,10 @@ fn main() {
             let shard: u64 = it.next().and_then(|s| s.parse().ok()).unwrap_or(0);
             let nshards: u64 = it.next().and_then(|s| s.parse().ok()).unwrap_or(1);
             let mut c = ctx::Ctx::new(&pid, &tier, seed, shard, nshards, &lane);
+            if let Some(sc) = arg_after(&args, "--scale").and_then(|s| s.parse::<f64>().ok()) {
+                c.scale = sc;
+            }
+            c.small = args.iter().any(|a| a == "--small") || cfg!(miri);
             observe::install_panic_hook();
             let captured = if std::env::var("JL_NOCAPTURE").is_ok() { false } else { observe::capture_start() };
             c.extra.insert("log_capture".into(), json!(captured));
@@ -97,6 +101,7 @@ fn main() {
             std::process::exit(code);
         }
         "libcall" => libcall(),
+        "miri-ping" => println!("miri-pong"),
         "selftest" => {
             let truth = args.get(2).expect("truth file");
             let tests = args.get(3).expect("tests.json");
